@@ -50,6 +50,9 @@ RTAtoms ==
   \cup {[pattern |-> "^a"], [anchor |-> "a"], [dynamicAnchor |-> "a"], [schema |-> D2020]}
   \cup {(kw :> l) : kw \in SingleKW, l \in {TrueS, FalseS, IntS, [not |-> TrueS]}}
   \cup {[extra |-> m] : m \in {[x |-> Num(R_1)], [x |-> Obj([type |-> Str("a")]), y |-> Null]}}
+  \* PropertyOrder: shorter, equal and longer than properties, naming absent properties
+  \cup {[properties |-> [a |-> IntS, b |-> [type |-> "string"]], propertyOrder |-> o] :
+          o \in {<<"b">>, <<"b", "a">>, <<"a", "zz">>, <<"zz", "b", "yy">>, <<"zz">>, <<>>}}
 RTOk(s) == /\ ~({"type", "types"} \subseteq DOMAIN s) /\ ~({"items", "itemsArray"} \subseteq DOMAIN s)
            /\ ~({"defs", "definitions"} \subseteq DOMAIN s)
            /\ ~({"depSchemas", "depStrings"} \subseteq DOMAIN s /\ DOMAIN s.depSchemas \cap DOMAIN s.depStrings # {})
